@@ -95,6 +95,7 @@ class UniKit:
         choice = rng.choice(
             ["add_tick"] * 4 + ["add_price", "add_value", "add_value"] + (["remove"] * 4 + ["collect"] * 2 if positions else [])
             + ["buy", "sell", "swap", "rebalance", "remove_unknown", "remove_all", "add_bad"]
+            + (["collect"] * 4 if any(p.pending_amount0 > 0 or p.pending_amount1 > 0 for p in m.positions.values()) else [])
         )
         if choice == "add_tick":
             lo, hi, where = self._ticks(rng)
@@ -124,10 +125,26 @@ class UniKit:
         if choice == "collect":
             pos = rng.choice(positions)
             p = m.positions[pos]
-            cc = rng.choice(["none", "half", "over", "negative", "zero"])
-            f = {"none": None, "half": Decimal("0.5"), "over": Decimal(3), "negative": Decimal(-1), "zero": Decimal(0)}[cc]
-            a0 = None if f is None else p.pending_amount0 * f + (Decimal("1e-9") if cc == "over" else 0) - (Decimal("1e-9") if cc == "negative" else 0)
-            a1 = None if f is None else p.pending_amount1 * f + (Decimal("1e-9") if cc == "over" else 0) - (Decimal("1e-9") if cc == "negative" else 0)
+            cc = rng.choice(["none", "half", "over", "over0", "over1", "cross", "negative", "zero"])
+            big = max(p.pending_amount0, p.pending_amount1, Decimal("1e-6"))
+            if cc == "none":
+                a0 = a1 = None
+            elif cc == "half":
+                a0, a1 = p.pending_amount0 / 2, p.pending_amount1 / 2
+            elif cc == "over":  # both caps above what is pending
+                f = Decimal(rng.choice([3, 1000]))
+                a0, a1 = p.pending_amount0 * f + Decimal("1e-9"), p.pending_amount1 * f + Decimal("1e-9")
+            elif cc == "over0":  # only token0's cap above its pending amount
+                a0, a1 = p.pending_amount0 * 2 + Decimal("1e-9"), p.pending_amount1 / 3
+            elif cc == "over1":
+                a0, a1 = p.pending_amount0 / 3, p.pending_amount1 * 2 + Decimal("1e-9")
+            elif cc == "cross":  # each cap lies between the two pending amounts (above one of them, below the other)
+                mid = (p.pending_amount0 + p.pending_amount1) / 2 + Decimal("1e-9")
+                a0 = a1 = mid if rng.random() < 0.5 else big * 2
+            elif cc == "negative":
+                a0, a1 = -p.pending_amount0 - Decimal("1e-9"), -p.pending_amount1 - Decimal("1e-9")
+            else:
+                a0 = a1 = Decimal(0)
             return Op(self.mtype, "collect_fee", cc, lambda: m.collect_fee(pos, a0, a1), kind="conserve")
         if choice == "buy":
             price = m.market_status.data.price
